@@ -714,6 +714,102 @@ theorem tie_parseParamRoute (route : Gen.Route) (gv : GVars) (info : RouteInfo)
     exact tie_parseParamRoute_vars route gv info hm hst hsp hhead (by rw [hss]; rfl) h
 
 
+theorem finish_reject {r st f sp : Bytes} {names : List Bytes} {why : Reject}
+    (h : finish r st f sp names = .reject why) : why = .compile ∨ why = .groups := by
+  unfold finish at h
+  by_cases hv : Bytes.validUTF8 r = true
+  · simp only [hv, Bool.not_true, Bool.false_eq_true, if_false] at h
+    by_cases hc : countGroups r 0 = names.length
+    · simp only [hc, ne_eq, not_true_eq_false, if_false] at h
+      cases hp : parseLevels (r.length + 2) r [] [] with
+      | none => rw [hp] at h; cases h
+      | some ls =>
+        rw [hp] at h
+        simp only at h
+        by_cases hl : levelsVars ls = names.length
+        · simp [hl] at h
+        · simp only [hl, ne_eq, not_false_eq_true, if_true, Compiled.reject.injEq] at h
+          exact Or.inr h.symm
+    · simp only [hc, ne_eq, not_false_eq_true, if_true, Compiled.reject.injEq] at h
+      exact Or.inr h.symm
+  · simp only [hv, Bool.not_false, if_true, Compiled.reject.injEq] at h
+    exact Or.inl h.symm
+
+/-- a variable regex that `goodRegexString` refuses (a capturing group): the generated function panics — registration
+    refuses the route -/
+theorem tie_parseParamRoute_reject_varRegex (route : Gen.Route) (gv : GVars)
+    (h : compileRouteIn gv route.path = .reject .varRegex) :
+    ∃ e, Gen.Router.parseParamRoute route findAllM replacerM gv mustCompileM numSubexpM = .error e := by
+  cases hne : (findVars (route.path.length + 1) route.path).isEmpty with
+  | true =>
+    unfold compileRouteIn at h
+    simp only [hne, if_true] at h
+    cases hopt : checkAndParseOptional (Bytes.quoteDots route.path) with
+    | none => rw [hopt] at h; cases h
+    | some r =>
+      rw [hopt] at h
+      rcases finish_reject h with hw | hw <;> cases hw
+  | false =>
+    rw [compile_vars_eq gv _ hne] at h
+    simp only at h
+    generalize hss : findVars (route.path.length + 1) route.path = ss at h hne
+    have hbad : ((ss.map (parseVarIn gv)).any fun v => !goodRegexString v.regex) = true := by
+      cases hb : (ss.map (parseVarIn gv)).any fun v => !goodRegexString v.regex with
+      | true => rfl
+      | false =>
+        simp only [hb, Bool.false_eq_true, if_false] at h
+        split at h
+        · cases h
+        · split at h
+          · cases h
+          · rcases finish_reject h with hw | hw <;> cases hw
+    unfold Gen.Router.parseParamRoute
+    have hfa : findAllM route.path = ss := hss
+    have hlen : (((ss.length : Int)) == 0) = false := by
+      cases ss with
+      | nil => simp at hne
+      | cons a t => simp; omega
+    simp only [bind, Except.bind, pure, Except.pure, hfa, hlen, Bool.false_eq_true, if_false]
+    have hmem : ∀ str ∈ ss, 2 ≤ str.length := fun str hs => findVars_len _ _ _ (hss ▸ hs)
+    have key : ∀ body : Bytes → PState → Except Panic (ForInStep PState),
+        (∀ str ∈ ss, ∀ st, (goodRegexString (parseVarIn gv str).regex = true → body str st = .ok (.yield (stepP gv str st))) ∧
+          (goodRegexString (parseVarIn gv str).regex = false → ∃ e, body str st = .error e)) →
+        ∀ v, forIn ss ((route, [], [], [], []) : PState) body ≠ .ok v := by
+      intro body hb v hv
+      obtain ⟨e, he⟩ := (pp_loop gv body ss hb (route, [], [], [], [])).2 hbad
+      rw [he] at hv; cases hv
+    split
+    · exact ⟨_, rfl⟩
+    · rename_i v heq
+      exact absurd heq (key _ (by
+        intro str hs st
+        have h2 := hmem str hs
+        simp only [slice_inner str h2, ppBlk6_eq]
+        obtain ⟨hg, hb⟩ := tie_goodRegexString st.1 (parseVarIn gv str).name (parseVarIn gv str).regex
+        constructor
+        · intro hgr; simp only [hg hgr]; rfl
+        · intro hgr; obtain ⟨e, he⟩ := hb hgr; exact ⟨e, by simp only [he]⟩) v)
+
+/-- optional brackets that are not all at the end of a path without variables: the generated function panics -/
+theorem tie_parseParamRoute_reject_optional_novars (route : Gen.Route) (gv : GVars)
+    (hhead : route.path.head? = some 0x2F)
+    (hss : findVars (route.path.length + 1) route.path = [])
+    (h : compileRouteIn gv route.path = .reject .optional) :
+    ∃ e, Gen.Router.parseParamRoute route findAllM replacerM gv mustCompileM numSubexpM = .error e := by
+  unfold compileRouteIn at h
+  simp only [hss, List.isEmpty_nil, if_true] at h
+  cases hopt : checkAndParseOptional (Bytes.quoteDots route.path) with
+  | some r =>
+    rw [hopt] at h
+    rcases finish_reject h with hw | hw <;> cases hw
+  | none =>
+    unfold Gen.Router.parseParamRoute
+    have hq : Gen.quotePointChar route.path = Bytes.quoteDots route.path :=
+      quotePointChar_eq _ (by rw [hhead]; simp)
+    have hfa : findAllM route.path = [] := hss
+    simp only [bind, Except.bind, pure, Except.pure, hfa, List.length_nil, hq, tie_checkAndParseOptional, hopt]
+    exact ⟨_, rfl⟩
+
 /-- part of what the model's `finish` checks: as many capturing groups as variable names -/
 theorem compile_ok_groups (gv : GVars) (path : Bytes) (info : RouteInfo) (h : compileRouteIn gv path = .ok info) :
     countGroups info.regexStr 0 = info.names.length := by
